@@ -117,6 +117,8 @@ inductive Rej where
   | genesisStored | prevValidators | heightOrder | genesisSigners
   -- msc
   | cpBeneficiary | nonce | cpNonce | extraSigners | cpSignerlist | cpMismatch | extraInfo | genesisHeight
+  -- bor
+  | toosoon
   deriving DecidableEq, Repr
 
 inductive Out where
@@ -643,6 +645,77 @@ def run (C : Cfg) (st : St) : List Op → St
   | o :: os => run C (apply C st o).1 os
 
 end Msc
+
+/-! ## polygon bor, REDUCED to one fixed span (`native/service/header_sync/polygon/{bor_header_sync,snapshot}.go`)
+
+The trust root carries a snapshot: the validators in ascending address order and the position of the proposer (the
+proposer-priority arithmetic of `validator_set.go` that determines it is not modelled: it is an input). No header is a
+sprint end or a sprint start (the sprint length lies beyond all heights considered), so the snapshot never changes and
+no Heimdall span proof is involved. Modelled: `verifyHeader` for such headers, `verifyCascadingFields`, `verifySeal`
+with `GetSignerSuccessionNumber`, `CalcProducerDelay`, `Difficulty`, and `addHeader`. In `Genesis`, `pv0.vals` holds the
+validators and `pv0.height` the proposer index. -/
+namespace Bor
+
+structure Cfg where
+  period : Nat
+  backup : Nat
+
+/-- `GetSignerSuccessionNumber`: how many places the signer stands behind the proposer, cyclically -/
+def succession (n proposerIndex signerIndex : Nat) : Nat :=
+  if signerIndex < proposerIndex then signerIndex + n - proposerIndex else signerIndex - proposerIndex
+
+def verifyHeader (C : Cfg) (vals : List Addr) (prop : Nat) (p : Stored) (h : Hdr) : Except Rej Unit :=
+  if h.extra.length != extraVanity + extraSeal then .error .extraSigners
+  else if !h.mixZero then .error .mix
+  else if !h.uncleOk then .error .uncle
+  else if p.hdr.number + 1 != h.number then .error .ancestor
+  else if p.hdr.time + C.period > h.time then .error .time
+  else if h.number = 0 then .error .block0
+  else match h.signer with
+    | none => .error .seal
+    | some signer =>
+      if !vals.contains signer then .error .signer
+      else if prop ≥ vals.length then .error .signer
+      else if h.time < p.hdr.time + (C.period + succession vals.length prop (Msc.indexOf signer vals) * C.backup) then .error .toosoon
+      else if h.difficulty != vals.length - succession vals.length prop (Msc.indexOf signer vals) then .error .turn
+      else .ok ()
+
+def syncGenesis (st : St) (g : Hdr) (vals : List Addr) (prop : Nat) : St × Out :=
+  if st.genesis.isSome then (st, .reject .genesisStored)
+  else
+    ({ genesis := some ⟨g, ⟨prop, vals, none⟩, ⟨0, [], none⟩⟩
+       hdrs := upd st.hdrs g.id (some ⟨g, g.difficulty, none⟩)
+       canon := upd st.canon g.number (some g.id)
+       height := g.number }, .ok)
+
+def syncHeader (C : Cfg) (st : St) (h : Hdr) : St × Out :=
+  if (st.hdrs h.id).isSome then (st, .skipDup)
+  else match st.hdrs h.parent with
+    | none => (st, .skipNoParent)
+    | some p =>
+      match st.genesis with
+      | none => (st, .reject .nogenesis)
+      | some g =>
+        match verifyHeader C g.pv0.vals g.pv0.height p h with
+        | .error e => (st, .reject e)
+        | .ok _ =>
+          match addHeader st h p ⟨0, [], some g.hdr.id⟩ with
+          | .error e => (st, .reject e)
+          | .ok st' => (st', .ok)
+
+inductive Op where
+  | genesis (g : Hdr) (vals : List Addr) (prop : Nat)
+  | hdr (h : Hdr)
+
+def apply (C : Cfg) (st : St) : Op → St × Out
+  | .genesis g vals prop => syncGenesis st g vals prop
+  | .hdr h => syncHeader C st h
+
+def run (C : Cfg) (st : St) : List Op → St
+  | [] => st
+  | o :: os => run C (apply C st o).1 os
+
+end Bor
 
 /-! ## Vocabulary of the property statements (C29)
 
